@@ -12,10 +12,16 @@ import cli
 def conform(rep, prop, groups, profiles=('release',), prefix='s', maxlen=3000, key_fn=None):
     shards = chunk(groups, maxlen)
     for prof in profiles:
+        t0 = time.time()
         binary = vlib.build_harness(prof)
+        t1 = time.time()
         traces = vlib.exec_shards(binary, shards, '%s-%s-' % (prefix, prof))
+        t2 = time.time()
         res = vlib.validate(traces, prop)
+        t3 = time.time()
         rep.add_validation(res, key_fn)
+        log('conform %s/%s: %d shards, %d cmds; build %.1fs exec %.1fs tlc %.1fs collate %.1fs' %
+            (prop, prof, len(shards), sum(len(s) for s in shards), t1 - t0, t2 - t1, t3 - t2, time.time() - t3))
     return len(shards)
 
 
@@ -806,7 +812,8 @@ import scn
 
 def model_and_scenarios(rep, module, cfg_text, what, emit=True, workers=1, timeout=3000):
     """writes spec/<module>.gen.cfg from cfg_text, runs TLC (invariants + scenario emission), returns scenarios"""
-    cfg = module + '.run%d.cfg' % os.getpid()
+    import threading
+    cfg = module + '.run%d_%d.cfg' % (os.getpid(), threading.get_ident())
     with open(os.path.join(vlib.SPEC, cfg), 'w') as f:
         f.write(cfg_text + ('ACTION_CONSTRAINT Emit\n' if emit else ''))
     try:
@@ -841,16 +848,19 @@ def hist_scenarios(rep, tier, prop):
     alpha = scn.parse_literal_alphabet('hist')
     groups = []
     depth = 3 if tier == 'quick' else 4
+    import concurrent.futures as cf
+    what = ('history model, 24-frame alphabet, 2 aircraft, ticks 9/11 s, depth %d, -R %s: InvFold (C11 reference fold), '
+            'Isolation (C03), InvExpiry (C12), InvCount (C16), InvRange (C08)')
+    with cf.ThreadPoolExecutor(max_workers=2) as ex:
+        futs = {R: ex.submit(model_and_scenarios, rep, 'MC_hist', HIST_CFG % ('TRUE' if R else 'FALSE', depth), what % (depth, R))
+                for R in (False, True)}
+        res = {R: f.result() for R, f in futs.items()}
     for R in (False, True):
-        scs = model_and_scenarios(rep, 'MC_hist', HIST_CFG % ('TRUE' if R else 'FALSE', depth),
-                                  'history model, 24-frame alphabet, 2 aircraft, ticks 9/11 s, depth %d, -R %s: InvFold (C11 reference fold), '
-                                  'Isolation (C03), InvExpiry (C12), InvCount (C16), InvRange (C08)' % (depth, R))
-        trie = scn.trie_of(scs)
+        trie = scn.trie_of(res[R])
         rep.extra.setdefault('model_transitions_replayed', 0)
         for U in (False, True):
             opts = (['-U'] if U else []) + (['-R'] if R else [])
-            gs = scn.groups_from_trie(trie, alpha, opts, split_depth=2)
-            groups += gs
+            groups += scn.groups_from_trie(trie, alpha, opts, split_depth=2)
             rep.extra['model_transitions_replayed'] += scn.count_edges(trie)
     return groups
 
